@@ -26,7 +26,25 @@ struct CellSum {
 }
 fn summarize(lib: &Library) -> Result<(String, BTreeMap<String, CellSum>), String> {
     let mut m = BTreeMap::new();
-    for c in lib.cells.iter() {
+    // every cell of the library: the listed ones and those only reachable through instances (a library may instantiate cells it does not list)
+    let mut all: Vec<tet::utils::Ptr<tet::cell::Cell>> = lib.cells.iter().cloned().collect();
+    let mut k = 0;
+    while k < all.len() {
+        let kids: Vec<tet::utils::Ptr<tet::cell::Cell>> = {
+            let c = all[k].read().map_err(|_| "lock")?;
+            match &c.layout {
+                Some(l) => l.instances.iter().map(|i| i.read().unwrap().cell.clone()).collect(),
+                None => vec![],
+            }
+        };
+        for kid in kids {
+            if !all.contains(&kid) {
+                all.push(kid);
+            }
+        }
+        k += 1;
+    }
+    for c in all.iter() {
         let c = c.read().map_err(|_| "lock")?;
         let mut s = CellSum { has_layout: false, has_abs: false, outline: (vec![], vec![]), metals: 0, insts: vec![], assigns: vec![], cuts: vec![], abs_outline: (vec![], vec![]), abs_metals: 0 };
         if let Some(l) = &c.layout {
